@@ -319,6 +319,8 @@ func (f *fgen) govStep() ([]txgen.Tx, bool) {
 			"onsOptions.baseDomainPrice:" + new(big.Int).Add(o.Base, big.NewInt(int64(1+f.u.N(1000, "gv-dbase")))).String(),
 			"onsOptions.baseDomainPrice:" + mul(o.PerBlock, 3).String(),
 			"onsOptions.perBlockFees:" + []string{"10000000000000000000", "20000000000000000000", "18446744073709551616"}[f.u.N(3, "gv-big")],
+			// a price of nothing per block must be refused when it is proposed (it is a divisor)
+			"onsOptions.perBlockFees:0",
 		}
 		f.propCfg = cfgs[f.u.N(len(cfgs), "gv-cfg")]
 		f.propID = txgen.ProposalID(fmt.Sprintf("c20-%d-%s", f.next(), w.P.Seed))
